@@ -986,6 +986,37 @@ def half_made(run_dir: str, layout: str) -> list:
     return out
 
 
+_WARM = False
+
+
+def warm() -> None:
+    """pay the lazy imports of the maildir backend once per worker, not once per child"""
+    global _WARM
+    if _WARM:
+        return
+    d = tempfile.mkdtemp(prefix='verif.c15.warm.')
+    old_tmp, old_env = tempfile.tempdir, os.environ.get('TMPDIR')
+    try:
+        w = World('maildir', users={USER: PASSWORD}, layout='++', maildir_dir=os.path.join(d, 's'))
+        drv = Driver(w, 'a')
+        drv.cmd(b'LOGIN %s %s' % (USER.encode(), PASSWORD.encode()))
+        drv.cmd(b'SELECT INBOX')
+        body = message_body(1, 'warm')
+        drv.cmd(b'APPEND INBOX {%d+}\r\n%s' % (len(body), body))
+        drv.cmd(b'UID FETCH 1:* (UID FLAGS BODY.PEEK[])')
+        drv.cmd(b'LIST "" *')
+        drv.cmd(b'STATUS INBOX (MESSAGES)')
+        w.close()
+    except Exception:
+        pass
+    finally:
+        tempfile.tempdir = old_tmp
+        if old_env is None:
+            os.environ.pop('TMPDIR', None)
+        shutil.rmtree(d, ignore_errors=True)
+    _WARM = True
+
+
 def run_job(job: dict) -> dict:
     """executed in a pool worker.  job: {cfg: (layout, place, store_root, tmp_root, same_tmp),
     history, hid, nonce, virgin, points: None | [k...]}"""
@@ -994,6 +1025,7 @@ def run_job(job: dict) -> dict:
     history = [tuple(s) for s in job['history']]
     nonce = job['nonce']
     virgin = job['virgin']
+    warm()
     work = tempfile.mkdtemp(prefix='verif.c15.job.', dir=store_root)
     res = {'hid': job['hid'], 'cfg': cfg.name, 'traces': [], 'L': 0, 'machinery': [],
            'clean_ops': [], 'aged_total': 0, 'aged_runs': 0, 'prefix_mismatch': 0,
